@@ -478,11 +478,15 @@ package redis
 //@ func (*compressFilter).Decompress
 //@   prop C11 C13
 //@   requires f != nil && resp != nil
-//@   loop 0 assume resp.Array == old(resp.Array)
+//@   modifies heap("RespValue.Text"), buflen, cpslen
+//@   ensures @only-text resp.Type == old(resp.Type) && resp.Array == old(resp.Array)
+//@   loop 0 invariant resp.Array == old(resp.Array) && resp.Type == old(resp.Type)
 
 //@ func (*compressFilter).decompress
 //@   prop C11 C13
 //@   requires f != nil
+//@   modifies buflen, cpslen
+//@   ensures @fresh-copy result1 == nil ==> len(result0) == 0 || fresh(result0)
 
 // ---- encoder (C10 C11 C01) ---------------------------------------------------------------------------
 
